@@ -96,6 +96,8 @@ def gen_theta(r: random.Random, mode: str, eps: float) -> float:
         return 10 ** r.uniform(-3, 0)
     if mode == "large":
         return r.choice([1.0, 2.0, 3.0, math.pi - 1e-3, math.pi + 1e-3, 4.0, 2 * math.pi - 1e-3, 7.0, r.uniform(0.5, 7.0)])
+    if mode == "huge":      # many turns per step: valid input ("arbitrary gyro")
+        return r.choice([20.0, 50.0, 100.0, r.uniform(10.0, 100.0)])
     return gen_theta(r, r.choice(["zero", "taylor", "small", "moderate", "moderate", "large"]), eps)   # mix
 
 
@@ -108,26 +110,42 @@ def gen_accmag(r: random.Random, mode: str) -> float:
         return 9.81 * r.uniform(0.9, 1.1)
     if mode == "big":
         return r.choice([30.0, 100.0, 1e3])
+    if mode == "huge":
+        return r.choice([1e5, 1e6])
+    if mode == "tiny":
+        return r.choice([1e-30, 1e-20, 1e-12])
     return r.choice([0.0, 1e-3, 0.1, 1.0, 9.81, 9.81, 30.0, 100.0])   # mix
 
 
+DT_EXTREME = [1e-5, 2.0, 10.0]
+
+
 def build_data(case) -> dict:
-    """all tensors of a case, deterministically from case['data_seed'] (python PRNG only)"""
+    """all tensors of a case, deterministically from case['data_seed'] / case['ctor_seed'] (python PRNG only)"""
     r = random.Random(case["data_seed"])
     dtn = case["dtype"]
     dtype, eps = tdt(dtn), common.EPS[dtn]
     B, F = case["B"], sum(case["chunks"])
     dts, gy, ac, ro, gc, av = [], [], [], [], [], []
     dt_const = r.choice(DT_LADDER)
+    items = case.get("item_modes")          # mixed-regime batch: one (gyro_mode, acc_mode) per item
     for b in range(B):
+        gm, amode = (items[b % len(items)] if items else (case["gyro_mode"], case["acc_mode"]))
         for f in range(F):
             m = case["dt_mode"]
-            d = dt_const if m == "const" else (r.choice(DT_LADDER) if m == "ladder" else 10 ** r.uniform(-4, 0))
+            if m == "const":
+                d = dt_const
+            elif m == "ladder":
+                d = r.choice(DT_LADDER)
+            elif m == "extreme":
+                d = r.choice(DT_EXTREME)
+            else:
+                d = 10 ** r.uniform(-4, 0)
             dts.append(d)
-            th = gen_theta(r, case["gyro_mode"], eps)
+            th = gen_theta(r, gm, eps)
             dirv = common.rand_dir(r, 3)
             gy.append([th / d * x for x in dirv])
-            am = gen_accmag(r, case["acc_mode"])
+            am = gen_accmag(r, amode)
             dira = common.rand_dir(r, 3)
             ac.append([am * x for x in dira])
             ro.append(unit_quat(r))
@@ -142,12 +160,15 @@ def build_data(case) -> dict:
         "gcov": torch.tensor(gc, dtype=torch.float64).reshape(B, F, 3).to(dtype),
         "acov": torch.tensor(av, dtype=torch.float64).reshape(B, F, 3).to(dtype),
     }
-    # constructor state
+    if case.get("layout") == "alias":       # the SAME tensor object is passed as gyro and as acc
+        D["acc"] = D["gyro"]
+    # constructor state (own PRNG so that several cases can share one constructor)
+    rc = random.Random(case.get("ctor_seed", case["data_seed"] ^ 0x5A5A5A))
     pm, vm = case.get("pos_mag", 1.0), case.get("vel_mag", 1.0)
     nst = B if case["init_mode"] == "per_item" else 1
-    D["p0"] = torch.tensor([[pm * x for x in common.rand_dir(r, 3)] for _ in range(nst)], dtype=torch.float64).to(dtype)
-    D["v0"] = torch.tensor([[vm * x for x in common.rand_dir(r, 3)] for _ in range(nst)], dtype=torch.float64).to(dtype)
-    D["R0"] = torch.tensor([unit_quat(r) for _ in range(nst)], dtype=torch.float64).to(dtype)
+    D["p0"] = torch.tensor([[pm * x for x in common.rand_dir(rc, 3)] for _ in range(nst)], dtype=torch.float64).to(dtype)
+    D["v0"] = torch.tensor([[vm * x for x in common.rand_dir(rc, 3)] for _ in range(nst)], dtype=torch.float64).to(dtype)
+    D["R0"] = torch.tensor([unit_quat(rc) for _ in range(nst)], dtype=torch.float64).to(dtype)
     if case["init_mode"] == "default":
         D["p0"], D["v0"] = torch.zeros(1, 3, dtype=dtype), torch.zeros(1, 3, dtype=dtype)
         D["R0"] = torch.tensor([[0.0, 0.0, 0.0, 1.0]], dtype=dtype)
@@ -156,12 +177,12 @@ def build_data(case) -> dict:
     if cm == "default":
         D["mg"], D["ma"] = [f32((3.2e-3) ** 2)] * 3, [f32((8e-2) ** 2)] * 3
     elif cm == "float":
-        g_, a_ = f32(10 ** r.uniform(-8, -3)), f32(10 ** r.uniform(-5, -1))
+        g_, a_ = f32(10 ** rc.uniform(-8, -3)), f32(10 ** rc.uniform(-5, -1))
         D["mg"], D["ma"] = [g_] * 3, [a_] * 3
     else:
-        g_, a_ = 10 ** r.uniform(-8, -4), 10 ** r.uniform(-5, -2)
-        D["mg"] = [f32(g_ * r.uniform(1, 10)) for _ in range(3)]
-        D["ma"] = [f32(a_ * r.uniform(1, 10)) for _ in range(3)]
+        g_, a_ = 10 ** rc.uniform(-8, -4), 10 ** rc.uniform(-5, -2)
+        D["mg"] = [f32(g_ * rc.uniform(1, 10)) for _ in range(3)]
+        D["ma"] = [f32(a_ * rc.uniform(1, 10)) for _ in range(3)]
     # explicit init_state material, one per call
     D["xi"] = []
     for ci, kind in enumerate(case["explicit_init"]):
@@ -182,6 +203,22 @@ def build_data(case) -> dict:
     return D
 
 
+def item_data(case, D, b):
+    """(case, data) of item b alone (B = 1): what the batched call must reproduce item by item"""
+    c = dict(case, B=1, itemwise=False, layout="contig")
+    if c["init_mode"] == "per_item":
+        c["init_mode"] = "shared"
+    Db = {}
+    for k in ("dt", "gyro", "acc", "rot", "gcov", "acov"):
+        Db[k] = D[k][b:b + 1].clone()
+    bi = b if D["p0"].shape[0] > 1 else 0
+    for k in ("p0", "v0", "R0"):
+        Db[k] = D[k][bi:bi + 1].clone()
+    Db["mg"], Db["ma"] = D["mg"], D["ma"]
+    Db["xi"] = [None if xi is None else {k: (None if v is None else v[b:b + 1].clone()) for k, v in xi.items()} for xi in D["xi"]]
+    return c, Db
+
+
 def make_module(case, D):
     P = pp()
     dtype = tdt(case["dtype"])
@@ -198,23 +235,66 @@ def make_module(case, D):
     return P.module.IMUPreintegrator(**kw).to(dtype)
 
 
-def call_args(case, D, ci, s, e, rank=None):
-    """positional/keyword arguments of call `ci` covering frames s:e"""
+SENTINEL = 7.25
+
+
+def lay_out(x, layout, name, bufs, guards):
+    """the tensor actually handed to forward: a fresh contiguous copy, a strided view into a larger buffer, an
+    expanded tensor, or a view into a persistent caller-owned buffer (`bufs`); `guards` collects every storage
+    that must be bit-identical after the call"""
+    if bufs is not None:                                   # caller re-uses ONE buffer for all calls (stale reads)
+        if name not in bufs:
+            bufs[name] = torch.full((4, 320, x.shape[-1] + 1), SENTINEL, dtype=x.dtype)
+        base = bufs[name]
+        idx = (slice(0, x.shape[0]),) * 0
+        if x.dim() == 3:
+            v = base[:x.shape[0], :x.shape[1], :x.shape[2]]
+        elif x.dim() == 2:
+            v = base[0, :x.shape[0], :x.shape[1]]
+        else:
+            v = base[0, 0, :x.shape[0]]
+        v.copy_(x)
+        guards.append(base)
+        return v
+    if layout == "strided" and x.dim() >= 2:
+        shp = list(x.shape)
+        big = torch.full(shp[:-2] + [2 * shp[-2] + 1, shp[-1] + 2], SENTINEL, dtype=x.dtype)
+        v = big[..., 1:2 * shp[-2] + 1:2, 1:shp[-1] + 1]
+        v.copy_(x)
+        guards.append(big)
+        return v
+    if layout == "expanded" and name == "dt" and x.dim() >= 2 and bool((x == x.flatten()[0]).all()):
+        v = x.flatten()[:1].clone().reshape([1] * x.dim()).expand(*x.shape)
+        guards.append(v)
+        return v
+    v = x.clone()
+    guards.append(v)
+    return v
+
+
+def call_args(case, D, ci, s, e, rank=None, bufs=None):
+    """positional/keyword arguments of call `ci` covering frames s:e, and the storages to guard"""
     P = pp()
     rank = case["rank"] if rank is None else rank
+    layout = case.get("layout", "contig")
+    guards = []
+
     def cut(x):
         if rank == 3:
-            return x[:, s:e].clone()
+            return x[:, s:e]
         if rank == 2:
-            return x[0, s:e].clone()
-        return x[0, s].clone()
-    args = [cut(D["dt"]), cut(D["gyro"]), cut(D["acc"])]
+            return x[0, s:e]
+        return x[0, s]
+    dt_ = lay_out(cut(D["dt"]), layout, "dt", bufs, guards)
+    gy_ = lay_out(cut(D["gyro"]), layout, "gyro", bufs, guards)
+    ac_ = gy_ if layout == "alias" else lay_out(cut(D["acc"]), layout, "acc", bufs, guards)
+    args = [dt_, gy_, ac_]
     kw = {}
     if case["known_rot"][ci]:
-        kw["rot"] = P.SO3(cut(D["rot"]))
+        kw["rot"] = P.SO3(lay_out(cut(D["rot"]), layout, "rot", bufs, guards))
     if case["call_cov"][ci]:
-        kw["gyro_cov"] = D["gcov"][:, s:e].clone()
-        kw["acc_cov"] = D["acov"][:, s:e].clone()
+        kw["gyro_cov"] = lay_out(D["gcov"][:, s:e], layout, "gcov", bufs, guards)
+        kw["acc_cov"] = lay_out(D["acov"][:, s:e], layout, "acov", bufs, guards)
     xi = D["xi"][ci]
     if xi is not None:
         st = {"pos": xi["pos"][:, None].clone(), "vel": xi["vel"][:, None].clone(), "rot": P.SO3(xi["rot"][:, None].clone())}
@@ -222,48 +302,95 @@ def call_args(case, D, ci, s, e, rank=None):
             st["cov"] = xi["cov"].clone()
         if "Rij" in xi:
             st["Rij"] = None if xi["Rij"] is None else P.SO3(xi["Rij"][:, None].clone())
+        guards += [v for v in st.values() if v is not None]
         kw["init_state"] = st
-    return args, kw
+    return args, kw, guards
 
 
 def plain(t):
     return torch.Tensor.as_subclass(t.detach(), torch.Tensor).clone()
 
 
-def flat_tensors(args, kw):
-    out = list(args)
-    for v in kw.values():
-        if isinstance(v, dict):
-            out += [x for x in v.values() if x is not None]
-        elif v is not None:
-            out.append(v)
-    return out
+def raw_storage(t):
+    """the tensor's own storage as a plain tensor (shares memory)"""
+    return torch.Tensor.as_subclass(t.detach(), torch.Tensor)
 
 
-def run_impl(case, D, chunks=None, rank=None):
-    """the real module fed the chunks; returns list of per-call dicts of float64 tensors (+ raw for bit checks)"""
+class Misbehaviour(Exception):
+    """the implementation did something a caller can observe and the property forbids (message = failure text)"""
+
+
+def module_attrs(m):
+    return {k: (None if getattr(m, k) is None else plain(getattr(m, k))) for k in ("gravity", "gyro_cov", "acc_cov", "pos", "rot", "vel", "cov", "Rij")}
+
+
+def check_attrs(m, before, o, reset, prop_cov):
+    """public attributes after a call: parameters untouched; reset=True: buffers untouched; reset=False: buffers = last frame"""
+    now = module_attrs(m)
+    for k in ("gravity", "gyro_cov", "acc_cov"):
+        if now[k].shape != before[k].shape or not torch.equal(now[k], before[k]):
+            raise Misbehaviour(f"attrs: a call changed the module parameter '{k}'")
+    if m.reset != reset or m.prop_cov != prop_cov:
+        raise Misbehaviour("attrs: a call changed the flags reset / prop_cov")
+    if reset:
+        for k in ("pos", "rot", "vel", "cov"):
+            if now[k].shape != before[k].shape or not torch.equal(now[k], before[k]):
+                raise Misbehaviour(f"attrs: reset=True but the buffer '{k}' changed in a call")
+        if now["Rij"] is not None and before["Rij"] is None:
+            raise Misbehaviour("attrs: reset=True but the buffer 'Rij' was set by a call")
+    else:
+        for k in ("pos", "rot", "vel"):
+            want = plain(o[k])[..., -1:, :]
+            if now[k].shape != want.shape or not torch.equal(now[k], want):
+                raise Misbehaviour(f"attrs: reset=False but the buffer '{k}' is not the last returned frame")
+        if o.get("cov") is not None and (now["cov"].shape != o["cov"].shape or not torch.equal(now["cov"], plain(o["cov"]))):
+            raise Misbehaviour("attrs: reset=False but the buffer 'cov' is not the returned covariance")
+
+
+def record(o):
+    return {"raw": o, "rot": plain(o["rot"]).double(), "vel": plain(o["vel"]).double(), "pos": plain(o["pos"]).double(),
+            "cov": None if o.get("cov") is None else plain(o["cov"]).double(),
+            "types": (type(o["rot"]).__name__, str(o["rot"].dtype), tuple(o["rot"].shape), tuple(o["vel"].shape),
+                      tuple(o["pos"].shape), None if o.get("cov") is None else tuple(o["cov"].shape))}
+
+
+def run_impl(case, D, chunks=None, rank=None, disturb=False):
+    """the real module fed the chunks; returns list of per-call dicts of float64 tensors (+ raw for bit checks).
+    disturb=True: after every call the caller overwrites, in place, every tensor it passed in and every tensor it
+    got back (a caller re-using its buffers / post-processing the result) — later calls must not notice."""
     chunks = case["chunks"] if chunks is None else chunks
     m = make_module(case, D)
     outs, s = [], 0
     prev_raw = []
     for ci, n in enumerate(chunks):
-        args, kw = call_args(case, D, ci if len(chunks) == len(case["chunks"]) else 0, s, s + n, rank)
-        ins = flat_tensors(args, kw)
-        snap = [plain(x) for x in ins]
+        args, kw, guards = call_args(case, D, ci if len(chunks) == len(case["chunks"]) else 0, s, s + n, rank)
+        snap = [plain(x) for x in guards]
+        before = module_attrs(m)
         o = m(*args, **kw)
-        for a, b in zip(ins, snap):
+        if not isinstance(o, dict) or any(k not in o for k in ("rot", "vel", "pos")):
+            raise Misbehaviour("types: forward did not return a dict with rot / vel / pos")
+        for a, b in zip(guards, snap):
             if not torch.equal(plain(a), b):
-                raise AssertionError("purity: forward modified one of its input tensors")
+                raise Misbehaviour("purity: forward modified an argument (or the storage around a view it was given)")
         for po, ps in prev_raw:
             for key in ps:
                 if not torch.equal(plain(po[key]), ps[key]):
-                    raise AssertionError(f"purity: a later call modified the previously returned '{key}'")
-        prev_raw.append((o, {key: plain(o[key]) for key in ("rot", "vel", "pos")}))
-        rec = {"raw": o, "rot": plain(o["rot"]).double(), "vel": plain(o["vel"]).double(), "pos": plain(o["pos"]).double(),
-               "cov": None if o.get("cov") is None else plain(o["cov"]).double(),
-               "types": (type(o["rot"]).__name__, str(o["rot"].dtype), tuple(o["rot"].shape), tuple(o["vel"].shape),
-                         tuple(o["pos"].shape), None if o.get("cov") is None else tuple(o["cov"].shape))}
+                    raise Misbehaviour(f"purity: a later call modified the previously returned '{key}'")
+        check_attrs(m, before, o, case["reset"], case["prop_cov"])
+        rec = record(o)
         outs.append(rec)
+        if disturb:
+            for x in guards:
+                if x.is_contiguous() or x._base is None:
+                    try:
+                        raw_storage(x).fill_(-55.5)
+                    except RuntimeError:
+                        pass                      # expanded tensors cannot be written
+            for key in ("rot", "vel", "pos", "cov"):
+                if o.get(key) is not None:
+                    raw_storage(o[key]).fill_(123.0)
+        else:
+            prev_raw.append((o, {key: plain(o[key]) for key in ("rot", "vel", "pos")}))
         s += n
     return outs
 
@@ -587,7 +714,84 @@ def check_types(ctx, case, impl_calls):
         if (tn, dn, sr, sv, sp, sc) != want:
             ctx.fail({**strip(case), "oracle": "types"}, f"types: call {ci} returned {rec['types']}, documented {want}")
             return False
+        for key in ("rot", "vel", "pos", "cov"):
+            if rec[key] is not None and not bool(torch.isfinite(rec[key]).all()):
+                ctx.fail({**strip(case), "oracle": "nonfinite"}, f"nonfinite: call {ci} returned NaN/inf in '{key}' for finite inputs")
+                return False
     return True
+
+
+def same_calls(a_calls, b_calls, keys=("rot", "vel", "pos", "cov")):
+    """first difference (bit for bit) between two runs, or None"""
+    for ci, (a, r) in enumerate(zip(a_calls, b_calls)):
+        for key in keys:
+            x, y = a[key], r[key]
+            if (x is None) != (y is None) or (x is not None and (x.shape != y.shape or not torch.equal(x, y))):
+                d = "" if x is None or y is None or x.shape != y.shape else f" (max |diff| {float((x - y).abs().max()):.3e})"
+                return f"'{key}' of call {ci}{d}"
+    return None
+
+
+def oracle_alias(ctx, case, D, impl_calls):
+    """a caller who overwrites, in place, the tensors it passed in and the tensors it got back (re-used buffers,
+    post-processed results) must not change what later calls return: the object owns its state"""
+    if len(case["chunks"]) < 2 or not case.get("alias_probe", case["stream"] in ("corpus", "search")):
+        return True
+    dist = run_impl(case, D, disturb=True)
+    diff = same_calls(impl_calls, dist)
+    if diff is not None:
+        ctx.fail({**strip(case), "oracle": "alias"},
+                 f"alias: after the caller overwrote its own input / returned tensors in place between calls, {diff} changed "
+                 f"(chunks {case['chunks'][:12]}, reset={case['reset']}): the carried state aliases caller-visible tensors")
+        return False
+    return True
+
+
+def oracle_items(ctx, case, D, impl_calls):
+    """item-wise = batched: every item of the batched call equals the same call on that item alone"""
+    if case["B"] < 2 or not case.get("itemwise"):
+        return True
+    eps = common.EPS[case["dtype"]]
+    ok = True
+    for b in range(case["B"]):
+        cb, Db = item_data(case, D, b)
+        single = run_impl(cb, Db)
+        for ci, (a, r) in enumerate(zip(impl_calls, single)):
+            for key in ("rot", "vel", "pos", "cov"):
+                x, y = a[key], r[key]
+                if x is None and y is None:
+                    continue
+                if (x is None) != (y is None):
+                    ctx.fail({**strip(case), "oracle": "items"}, f"items: '{key}' present only in one of batched / single run")
+                    return False
+                xb, yb = x[b], y[0]
+                scale = float(yb.abs().max()) if key != "rot" else 1.0
+                err = float((xb - yb).abs().max()) if key != "rot" else float(qdist(xb, yb).max())
+                if key == "cov":
+                    err, scale = cov_err(xb, yb), 1.0
+                if not err <= 64 * eps * max(scale, 1e-300):
+                    ctx.fail({**strip(case), "oracle": "items", "item": b},
+                             f"items: item {b} of the batched call differs from the call on that item alone in '{key}' "
+                             f"(call {ci}): {err:.3e} > {64 * eps * max(scale, 1e-300):.3e} (batch regimes {case.get('item_modes')})")
+                    ok = False
+                    break
+            if not ok:
+                break
+    return ok
+
+
+def guarded(ctx, case, name, fn, *args):
+    """an oracle must never crash the harness: whatever the implementation returned becomes a failure with the case"""
+    try:
+        return fn(ctx, case, *args)
+    except Misbehaviour as e:
+        ctx.fail({**strip(case), "oracle": name}, str(e))
+    except common.InfraError:
+        raise
+    except Exception as e:
+        ctx.fail({**strip(case), "oracle": name},
+                 f"misbehaviour: oracle '{name}' could not process what the implementation returned: {type(e).__name__}: {str(e)[:160]}")
+    return False
 
 
 # ----------------------------------------------------------------------------- evaluation of a list of cases
@@ -605,43 +809,68 @@ def sig_of(case):
     F = sum(case["chunks"])
     return ("hist", case["stream"], case["dtype"], case["B"], case["rank"], F, len(case["chunks"]), case["gyro_mode"],
             case["acc_mode"], case["dt_mode"], tuple(case["known_rot"][:3]), case["gravity"] != 0.0, case["prop_cov"],
-            case["reset"], case["init_mode"], tuple(x for x in case["explicit_init"][:3]))
+            case["reset"], case["init_mode"], tuple(x for x in case["explicit_init"][:3]), case.get("layout", "contig"),
+            str(case.get("item_modes")))
+
+
+def run_case_impl(ctx, case, D):
+    """run the real code on one case, turning every observable misbehaviour into a failure; -> impl calls or None"""
+    try:
+        impl = run_impl(case, D)
+    except Misbehaviour as e:
+        ctx.fail({**strip(case), "oracle": str(e).split(":")[0]}, str(e))
+        return None
+    except Exception as e:
+        ctx.fail({**strip(case), "oracle": "raises"},
+                 f"raises: forward raised {type(e).__name__} for B={case['B']} chunks={case['chunks'][:12]} rank={case['rank']} "
+                 f"layout={case.get('layout', 'contig')}: {str(e)[:160]}")
+        return None
+    if not check_types(ctx, case, impl):
+        return None       # wrong shapes / types / NaN: already a failure, nothing further can be compared
+    return impl
 
 
 def evaluate(ctx: Ctx, cases, left=None) -> None:
     if left is None:
         left = model_left(ctx)
     lines, metas = [], []
-    for case in cases:
+    pending, futures = [], []
+    pool = ThreadPoolExecutor(2)          # the model runs in driver processes while the real code keeps running here
+    block = max(40, len(cases) // 5)
+    for idx, case in enumerate(cases):
         D = build_data(case)
         F = sum(case["chunks"])
         ctx.note_case(sig_of(case), case["gyro_mode"] != "zero" or case["acc_mode"] != "zero")
         ctx.count(f"{case['stream']}.{case['dtype']}.B{case['B']}.rank{case['rank']}")
         ctx.count(f"gyro.{case['gyro_mode']}")
         ctx.count(f"acc.{case['acc_mode']}")
-        ctx.count(f"F.{'1' if F == 1 else '2-8' if F <= 8 else '9-64' if F <= 64 else '65-200'}")
+        ctx.count(f"F.{'1' if F == 1 else '2-8' if F <= 8 else '9-64' if F <= 64 else '65-200' if F <= 200 else '201+'}")
         ctx.count(f"chunks.{min(len(case['chunks']), 9)}")
         ctx.count("known_rot" if any(case["known_rot"]) else "integrated_rot")
         ctx.count("gravity0" if case["gravity"] == 0.0 else "gravity")
+        ctx.count(f"layout.{case.get('layout', 'contig')}")
+        if case.get("item_modes"):
+            ctx.count("mixed_regime_batch")
         ctx.sample({k: v for k, v in case.items() if k not in ("known_rot", "call_cov", "explicit_init") or len(case["chunks"]) <= 4}, cap=8)
-        try:
-            impl = run_impl(case, D)
-        except AssertionError as e:
-            ctx.fail({**strip(case), "oracle": "purity"}, str(e))
-            continue
-        except Exception as e:
-            ctx.fail({**strip(case), "oracle": "raises"},
-                     f"raises: forward raised {type(e).__name__} for B={case['B']} chunks={case['chunks'][:12]} rank={case['rank']}: {str(e)[:160]}")
-            continue
-        if not check_types(ctx, case, impl):
-            continue       # wrong shapes / types: already a failure, nothing further can be compared
-        oracle_psd(ctx, case, impl)
-        oracle_chunk(ctx, case, D, impl)
-        oracle_rank(ctx, case, D, impl)
-        for b in range(case["B"]):
-            lines.append(model_line(case, D, b, 0, left))
-            metas.append((case, D, b, impl))
-    reps = par_driver(ctx, lines)
+        impl = run_case_impl(ctx, case, D)
+        if impl is not None:
+            guarded(ctx, case, "psd", oracle_psd, impl)
+            guarded(ctx, case, "chunk", oracle_chunk, D, impl)
+            guarded(ctx, case, "rank", oracle_rank, D, impl)
+            guarded(ctx, case, "alias", oracle_alias, D, impl)
+            guarded(ctx, case, "items", oracle_items, D, impl)
+            for b in range(case["B"]):
+                pending.append(model_line(case, D, b, 0, left))
+                metas.append((case, D, b, impl))
+        if pending and ((idx + 1) % block == 0 or idx + 1 == len(cases)):
+            futures.append(pool.submit(par_driver, ctx, pending))
+            pending = []
+    if pending:
+        futures.append(pool.submit(par_driver, ctx, pending))
+    reps = []
+    for fu in futures:
+        reps += fu.result()
+    pool.shutdown()
     suspects = []
     for rep, (case, D, b, impl) in zip(reps, metas):
         mc = split_reply(case, parse_floats(rep))
@@ -667,10 +896,151 @@ def evaluate(ctx: Ctx, cases, left=None) -> None:
                     break
 
 
+# ----------------------------------------------------------------------------- the `integrate` dict, block by block
+
+def run_integrate(ctx: Ctx, cases):
+    """`IMUPreintegrator.integrate` called directly: Dr, Dv, Dp, Dt, a against the model's `integrate`, each block with
+    its OWN relative scale (no initial position / velocity magnitude in any tolerance)"""
+    P = pp()
+    lines, metas = [], []
+    for case in cases:
+        D = build_data(case)
+        eps = common.EPS[case["dtype"]]
+        B, F = case["B"], sum(case["chunks"])
+        m = make_module(case, D)
+        known = case["known_rot"][0]
+        nst = D["R0"].shape[0]
+        R0 = P.SO3((D["R0"][:, None] if nst > 1 else D["R0"][0][None, None].expand(B, 1, 4)).clone())
+        c1 = {**strip(case), "kind": "integrate"}
+        ctx.note_case(("integrate",) + sig_of(case)[2:], True)
+        ctx.count("integrate")
+        try:
+            st = m.integrate(D["dt"].clone(), D["gyro"].clone(), D["acc"].clone(),
+                             rot=P.SO3(D["rot"].clone()) if known else None, init_rot=R0)
+            got = {k: plain(st[k]).double() for k in ("Dr", "Dv", "Dp", "Dt", "a")}
+            shapes = {k: tuple(v.shape) for k, v in got.items()}
+            want = {"Dr": (B, F, 4), "Dv": (B, F, 3), "Dp": (B, F, 3), "Dt": (B, F, 1), "a": (B, F, 3)}
+            if shapes != want:
+                ctx.fail(c1, f"types: integrate returned shapes {shapes}, documented {want}")
+                continue
+        except Exception as e:
+            ctx.fail(c1, f"raises: integrate raised {type(e).__name__}: {str(e)[:160]}")
+            continue
+        for b in range(B):
+            bi = b if nst > 1 else 0
+            toks = ["imu.integrate", to_wire(eps), to_wire(case["gravity"]), wl(D["R0"][bi]), str(F), "1" if known else "0"]
+            for f in range(F):
+                toks += [wl(D["dt"][b, f]), wl(D["gyro"][b, f]), wl(D["acc"][b, f])]
+                if known:
+                    toks.append(wl(D["rot"][b, f]))
+                toks += ["0:0 0:0 0:0", "0:0 0:0 0:0"]
+            lines.append(" ".join(toks))
+            metas.append((c1, D, b, got))
+    reps = par_driver(ctx, lines)
+    for rep, (c1, D, b, got) in zip(reps, metas):
+        eps = common.EPS[c1["dtype"]]
+        F = sum(c1["chunks"])
+        vals = torch.tensor(parse_floats(rep), dtype=torch.float64).reshape(F, 14)
+        g = abs(c1["gravity"])
+        dt = D["dt"][b, :, 0].double()
+        am = D["acc"][b].double().norm(dim=-1) + g
+        th = (D["gyro"][b].double().norm(dim=-1) * dt).cummax(0)[0]
+        k = torch.arange(F, dtype=torch.float64) + 2
+        c = K_ALG * eps * k * (1 + th)
+        sv = torch.cumsum(am * dt, 0)
+        sp = torch.cumsum(torch.cat([torch.zeros(1, dtype=torch.float64), sv[:-1]]) * dt + 0.5 * am * dt * dt, 0)
+        blocks = [("Dr", qdist(got["Dr"][b], vals[:, 0:4]), c),
+                  ("Dv", (got["Dv"][b] - vals[:, 4:7]).norm(dim=-1), c * sv.clamp_min(1e-300)),
+                  ("Dp", (got["Dp"][b] - vals[:, 7:10]).norm(dim=-1), c * sp.clamp_min(1e-300)),
+                  ("Dt", (got["Dt"][b, :, 0] - vals[:, 10]).abs(), K_ALG * eps * k * torch.cumsum(dt, 0)),
+                  ("a", (got["a"][b] - vals[:, 11:14]).norm(dim=-1), c * am.clamp_min(1e-300))]
+        for name, e, t in blocks:
+            bad = ~(e <= t)
+            if bool(bad.any()):
+                j = int(bad.nonzero()[0])
+                msg = f"integrate item {b} frame {j}: block '{name}' off by {float(e[j]):.3e} > {float(t[j]):.3e}"
+                ctx.disagree("integrate", c1, msg)
+                ctx.fail({**c1, "oracle": "recursion", "item": b},
+                         "recursion: increments returned by integrate() are not the documented recursion (theorem par_eq_seq_integrate: "
+                         "model = recursion): " + msg)
+                break
+
+
+# ----------------------------------------------------------------------------- object reuse
+
+REUSE_KEYS = ("dtype", "gravity", "reset", "prop_cov", "cov_mode", "init_mode", "ctor_seed", "pos_mag", "vel_mag")
+
+
+def reuse_history(rng: random.Random, n_calls: int, variant: str):
+    """sub-cases (one call each) that share ONE constructor but differ in every per-call argument: batch size, frame
+    count, rank, known rotation, per-call covariances, init_state, layout, regimes"""
+    first = base_case(rng, "reuse", [rng.randint(1, 9)], B=rng.choice([1, 2, 3, 4]),
+                      init_mode=rng.choice(["default", "shared"]), ctor_seed=rng.randrange(1 << 30))
+    if variant == "reset":
+        first["reset"], first["prop_cov"] = True, rng.random() < 0.8
+    else:                       # reset=False, but every call brings a full init_state: documented to ignore the carried one
+        first["reset"], first["prop_cov"] = False, True
+    subs = []
+    for i in range(n_calls):
+        if subs and rng.random() < 0.35:      # same sizes as the previous call: only the CONTENT of the caller's buffers changed
+            B, rank, F = subs[-1]["B"], subs[-1]["rank"], subs[-1]["chunks"][0]
+        else:
+            B = rng.choice([1, 2, 3, 4])
+            rank = rng.choice([3, 3, 2, 1]) if B == 1 else 3
+            F = 1 if rank == 1 else rng.choice([1, 2, 3, 5, 8, 9, 17])
+        c = base_case(rng, "reuse", [F], B=B, rank=rank)
+        for k in REUSE_KEYS:
+            c[k] = first[k]
+        c["known_rot"] = [rng.random() < 0.5]
+        c["call_cov"] = [c["prop_cov"] and rng.random() < 0.4]
+        c["explicit_init"] = ["cov+rij"] if variant == "fullinit" else [rng.choice([None, None, "basic", "cov+rij", "cov+rnone"])]
+        c["layout"] = "contig"
+        subs.append(c)
+    return subs
+
+
+def run_reuse_history(ctx: Ctx, subs, record_case=True):
+    """ONE object serves all sub-cases, the caller re-using ONE set of buffers (updated in place between calls);
+    every call must equal, bit for bit, the same call on a fresh object"""
+    case = {"kind": "reuse", "subs": [strip(c) for c in subs]}
+    ctx.note_case(("reuse", len(subs), subs[0]["reset"], subs[0]["dtype"], tuple((c["B"], c["chunks"][0], c["rank"]) for c in subs)), True)
+    ctx.count("reuse.history")
+    try:
+        D0 = build_data(subs[0])
+        m = make_module(subs[0], D0)
+        bufs = {}
+        for k, c in enumerate(subs):
+            D = build_data(c)
+            n = c["chunks"][0]
+            args, kw, guards = call_args(c, D, 0, 0, n, bufs=bufs)
+            snap = [plain(x) for x in guards]
+            before = module_attrs(m)
+            o = m(*args, **kw)
+            for a, b in zip(guards, snap):
+                if not torch.equal(plain(a), b):
+                    raise Misbehaviour(f"purity: call {k} on the reused object modified the caller's buffers")
+            check_attrs(m, before, o, c["reset"], c["prop_cov"])
+            got = [record(o)]
+            fresh = run_impl(c, D)
+            if got[0]["types"] != fresh[0]["types"]:
+                raise Misbehaviour(f"reuse: call {k} on the reused object returned {got[0]['types']}, a fresh object {fresh[0]['types']}")
+            diff = same_calls(got, fresh)
+            if diff is not None:
+                hist = [(s_["B"], s_["chunks"][0], s_["rank"], s_["explicit_init"][0]) for s_ in subs[:k + 1]]
+                raise Misbehaviour(f"reuse: call {k} of one object (history of (B,F,rank,init) {hist}, reset={c['reset']}) differs from the "
+                                   f"same call on a fresh object in {diff}: state or a cache leaks between calls")
+    except Misbehaviour as e:
+        ctx.fail({**case, "oracle": str(e).split(":")[0]}, str(e))
+    except common.InfraError:
+        raise
+    except Exception as e:
+        ctx.fail({**case, "oracle": "raises"}, f"raises: reused object raised {type(e).__name__} in a legal call sequence: {str(e)[:160]}")
+
+
 # ----------------------------------------------------------------------------- case generation
 
-GYRO_MODES = ["mix", "mix", "moderate", "moderate", "small", "taylor", "large", "zero"]
-ACC_MODES = ["mix", "mix", "unit", "grav", "big", "zero"]
+GYRO_MODES = ["mix", "mix", "mix", "moderate", "moderate", "moderate", "small", "small", "taylor", "taylor", "large", "large", "zero", "zero", "huge"]
+ACC_MODES = ["mix", "mix", "mix", "unit", "unit", "grav", "grav", "big", "big", "zero", "zero", "huge", "tiny"]
 
 
 def base_case(rng: random.Random, stream: str, chunks, B=None, rank=3, dtype=None, **over):
@@ -687,12 +1057,15 @@ def base_case(rng: random.Random, stream: str, chunks, B=None, rank=3, dtype=Non
         "known_rot": [kr] * n, "call_cov": [False] * n, "explicit_init": [None] * n,
         "init_mode": rng.choice(["default", "shared", "shared", "per_item"]),
         "gyro_mode": rng.choice(GYRO_MODES), "acc_mode": rng.choice(ACC_MODES),
-        "dt_mode": rng.choice(["const", "ladder", "vary"]),
+        "dt_mode": rng.choice(["const", "const", "ladder", "ladder", "vary", "vary", "vary", "extreme"]),
         "cov_mode": rng.choice(["default", "float", "vec"]),
         "pos_mag": rng.choice([0.0, 1.0, 1e3]), "vel_mag": rng.choice([0.0, 1.0, 30.0]),
         "data_seed": rng.randrange(1 << 30),
+        "layout": rng.choice(["contig", "contig", "contig", "strided", "expanded", "alias"]),
     }
     case.update(over)
+    if case["layout"] == "alias" and case["acc_mode"] in ("zero", "big", "huge") and "gyro_mode" not in over:
+        case["gyro_mode"] = "moderate"       # acc IS gyro in this layout: keep it a sensible signal
     if case["rank"] < 3:
         case["B"] = 1
         if case["init_mode"] == "per_item":
@@ -729,6 +1102,77 @@ def random_chunks(rng, F):
         parts.append(m)
         left -= m
     return parts
+
+
+def corner_corpus():
+    """deterministic corner corpus: identical for every VERIF_SEED, evaluated BEFORE the seeded random cases"""
+    rng = random.Random(20260925_16)
+    cs = []
+
+    def add(chunks, **kw):
+        kw.setdefault("dtype", "float64")
+        kw.setdefault("layout", "contig")
+        c = base_case(rng, "corpus", chunks, **kw)
+        n = len(chunks)
+        for k in ("known_rot", "call_cov", "explicit_init"):
+            if k in kw and len(kw[k]) != n:
+                c[k] = (list(kw[k]) * n)[:n]
+        cs.append(c)
+        return c
+    # every small frame count x {integrated, known} rotation x {gravity, none}; clean start so nothing hides a small term
+    for F in (1, 2, 3, 4, 5, 7, 8, 9, 16, 17):
+        for kr in (False, True):
+            add([F], B=1, known_rot=[kr], gravity=STD_G if F % 2 else 0.0, gyro_mode="moderate", acc_mode="unit",
+                init_mode="default" if F % 3 else "shared", pos_mag=0.0, vel_mag=1.0, dt_mode="vary",
+                prop_cov=F <= 9, reset=F > 9)
+    for F in (32, 33, 64, 65):
+        add([F], B=1, known_rot=[False], gravity=STD_G, gyro_mode="moderate", acc_mode="grav", prop_cov=False, reset=True,
+            init_mode="shared", dt_mode="ladder")
+    # chunkings incl. singletons at either end, three and more calls, per-item start, float32
+    for parts in ([1, 1], [1, 2], [2, 1], [1, 1, 1], [2, 3], [3, 2, 4], [1, 4, 1, 2], [5, 1, 1, 1, 3]):
+        add(parts, B=2, known_rot=[False], gravity=STD_G, gyro_mode="moderate", acc_mode="unit", init_mode="per_item",
+            dt_mode="vary", itemwise=True)
+        add(parts, B=1, known_rot=[True], gravity=STD_G, gyro_mode="large", acc_mode="grav", init_mode="shared",
+            dt_mode="const", dtype="float32", layout="strided")
+    # (1) extreme but valid: many turns per step, huge / tiny accelerations, dt outside [1e-4, 1], far-away start,
+    #     batch sizes and frame counts beyond the listed ranges
+    add([6], B=1, gyro_mode="huge", acc_mode="unit", gravity=STD_G, known_rot=[False])
+    add([3, 3], B=1, gyro_mode="huge", acc_mode="huge", gravity=STD_G, known_rot=[False], pos_mag=0.0, vel_mag=0.0)
+    add([6], B=2, gyro_mode="moderate", acc_mode="huge", gravity=STD_G, known_rot=[True], pos_mag=0.0)
+    add([6], B=2, gyro_mode="small", acc_mode="tiny", gravity=0.0, known_rot=[False], pos_mag=0.0, vel_mag=0.0, init_mode="default")
+    add([4, 2], B=1, gyro_mode="moderate", acc_mode="unit", dt_mode="extreme", gravity=STD_G, known_rot=[False])
+    add([5], B=1, gyro_mode="moderate", acc_mode="unit", gravity=STD_G, pos_mag=1e6, vel_mag=1e3, init_mode="shared")
+    add([3], B=7, gyro_mode="mix", acc_mode="mix", gravity=STD_G, init_mode="per_item", itemwise=True)
+    add([2, 2], B=5, gyro_mode="moderate", acc_mode="unit", gravity=STD_G, init_mode="shared")
+    for F in (201, 257):
+        add([F], B=1, gyro_mode="moderate", acc_mode="unit", gravity=STD_G, prop_cov=False, reset=True, dt_mode="const")
+    # (7) mixed-regime batches: every item in another regime, compared item by item with the single-item call
+    regs = [("zero", "zero"), ("taylor", "grav"), ("moderate", "unit"), ("large", "big")]
+    for parts in ([4], [2, 3]):
+        for kr in (False, True):
+            add(parts, B=4, item_modes=regs, gyro_mode="mix", acc_mode="mix", known_rot=[kr], gravity=STD_G,
+                init_mode="per_item", itemwise=True, dtype="float64")
+    add([3], B=4, item_modes=[("huge", "huge"), ("zero", "tiny"), ("small", "grav"), ("taylor", "zero")], gyro_mode="mix",
+        acc_mode="mix", known_rot=[False], gravity=STD_G, init_mode="shared", itemwise=True, dtype="float32")
+    # (6) views, aliases
+    for lay in ("strided", "expanded", "alias"):
+        add([3, 2], B=2, layout=lay, gyro_mode="moderate", acc_mode="unit", dt_mode="const", gravity=STD_G, known_rot=[lay == "strided"])
+        add([4], B=1, rank=2, layout=lay, gyro_mode="moderate", acc_mode="unit", dt_mode="const", gravity=STD_G)
+    # (4) histories: reset=True, explicit init_state of every kind, per-call covariances, prop_cov=False
+    add([2, 3, 1], B=2, reset=True, prop_cov=True, known_rot=[True, False, True], call_cov=[False, True, False],
+        explicit_init=[None, "cov+rij", "basic"], gyro_mode="moderate", acc_mode="unit", gravity=STD_G)
+    add([2, 2, 2], B=1, reset=True, prop_cov=False, gyro_mode="moderate", acc_mode="unit", gravity=STD_G)
+    add([1, 3, 2, 2], B=2, reset=False, prop_cov=True, known_rot=[False, False, True, False],
+        call_cov=[False, False, True, True], explicit_init=[None, None, "cov", "rij"], gyro_mode="moderate",
+        acc_mode="unit", gravity=STD_G)
+    add([2, 1, 2], B=1, reset=False, explicit_init=["cov+rnone", None, None], gyro_mode="moderate", acc_mode="grav", gravity=STD_G)
+    add([1, 1, 1], B=1, rank=1, gyro_mode="moderate", acc_mode="unit", gravity=STD_G, known_rot=[True])
+    return cs
+
+
+def corpus_reuse():
+    rng = random.Random(20260925_17)
+    return [reuse_history(rng, 5, "reset"), reuse_history(rng, 4, "fullinit"), reuse_history(rng, 5, "reset")]
 
 
 def gen_cases(ctx: Ctx):
@@ -830,9 +1274,30 @@ def run_shapes(ctx: Ctx):
 
 def run(ctx: Ctx):
     torch.set_num_threads(2)
+    rng = ctx.rng
     run_shapes(ctx)
+    # deterministic corner corpus first (same for every seed), then the seeded random cases
+    corpus = corner_corpus()
+    reuse = corpus_reuse() + [reuse_history(rng, rng.randint(3, 6), rng.choice(["reset", "reset", "fullinit"]))
+                              for _ in range(ctx.pick(6, 60))]
+    for subs in reuse:
+        run_reuse_history(ctx, subs)
     cases = gen_cases(ctx)
-    evaluate(ctx, cases)
+    # mixed-regime batches and the item-wise oracle also on seeded cases
+    for c in cases:
+        if len(c["chunks"]) >= 2 and rng.random() < 0.5:
+            c["alias_probe"] = True
+        if c["B"] >= 2 and sum(c["chunks"]) <= 12 and not any(c["call_cov"]) and rng.random() < 0.5:
+            c["itemwise"] = True
+            if rng.random() < 0.5:
+                c["item_modes"] = [(rng.choice(["zero", "taylor", "small", "moderate", "large"]),
+                                    rng.choice(["zero", "unit", "grav", "big"])) for _ in range(c["B"])]
+    sub_cases = [c for subs in reuse[:3] for c in subs]          # the reuse calls, as fresh objects, against the model
+    evaluate(ctx, corpus + sub_cases + cases)
+    single = [c for c in corpus + cases if len(c["chunks"]) == 1 and c["rank"] == 3 and c["explicit_init"] == [None]
+              and c.get("layout", "contig") != "alias"]
+    pick = [c for c in single if c["stream"] == "corpus"] + [c for c in single if c["stream"] != "corpus" and sum(c["chunks"]) <= 64][:ctx.pick(40, 200)]
+    run_integrate(ctx, pick)
 
 
 def search(ctx: Ctx):
@@ -854,15 +1319,12 @@ def search(ctx: Ctx):
     lines, metas = [], []
     for case in cases:
         D = build_data(case)
-        try:
-            impl = run_impl(case, D)
-        except Exception as e:
-            ctx.fail({**strip(case), "oracle": "raises"}, f"raises: forward raised {type(e).__name__}: {str(e)[:160]}")
+        impl = run_case_impl(ctx, case, D)
+        if impl is None:
             continue
-        if not check_types(ctx, case, impl):
-            continue
-        oracle_psd(ctx, case, impl)
-        oracle_chunk(ctx, case, D, impl)
+        guarded(ctx, case, "psd", oracle_psd, impl)
+        guarded(ctx, case, "chunk", oracle_chunk, D, impl)
+        guarded(ctx, case, "alias", oracle_alias, D, impl)
         for b in range(case["B"]):
             lines.append(model_line(case, D, b, 1, left))
             metas.append((case, D, b, impl))
@@ -882,12 +1344,19 @@ def replay(ctx: Ctx, case) -> bool:
     n0 = len(ctx.failures) + len(ctx.known_hits)
     if c.get("kind") == "rankok":
         run_shapes(ctx)
+    elif c.get("kind") == "reuse":
+        run_reuse_history(ctx, c["subs"])
+    elif c.get("kind") == "integrate":
+        c["kind"] = "hist"
+        run_integrate(ctx, [c])
     else:
         evaluate(ctx, [c])
         # always show the property's own statement for this case
         D = build_data(c)
         try:
             impl = run_impl(c, D)
+            if not check_types(ctx, c, impl):
+                raise Misbehaviour("types")
             reps = par_driver(ctx, [model_line(c, D, b, 1, False) for b in range(c["B"])])
             for b, rep in enumerate(reps):
                 sc = split_reply(c, parse_floats(rep))
